@@ -215,6 +215,12 @@ PROP_MENU = [
     ("REQUEST-STATUS", "2.0;Success"), ("RELATED-TO", "other-uid"), ("COMPLETED", "20200103T000000Z"),
     ("TZURL", "http://tz.example/x"), ("RESOURCES", "beamer,room"), ("EXRULE", "FREQ=DAILY"),
     ("ACKNOWLEDGED", "20200102T090500Z"),
+    # boundary values of the value codecs (year 1 / 999 / 9999, midnight, end of day, zero / negative durations)
+    ("DTSTART", "00010101T000000"), ("DTEND", "09990102T030405Z"), ("DUE", "99991231T235959"), ("DTSTART;VALUE=DATE", "00010101"),
+    ("CREATED", "00011231T235959Z"), ("EXDATE", "00010101T000000,09991231T000000"), ("DURATION", "PT0S"), ("TRIGGER", "-P0D"),
+    ("RRULE", "FREQ=DAILY;UNTIL=09990101T000000Z"), ("FREEBUSY", "00010101T000000Z/00010101T010000Z"),
+    ("SUMMARY", "\ufeffstarts with U+FEFF"), ("DESCRIPTION", "x" * 70 + "\ufeff" + "y" * 10), ("LOCATION", "a\u2028b\x85c"),
+    ("PRIORITY", "0"), ("SEQUENCE", "2147483647"), ("GEO", "0;0"), ("TZOFFSETFROM", "-0000"), ("TZOFFSETTO", "+235959"),
 ]
 COMP_NAMES = ["VEVENT", "VTODO", "VJOURNAL", "VFREEBUSY", "VALARM", "X-CUSTOM", "vevent", "VVENUE"]
 
